@@ -8,18 +8,87 @@ structure St where
   pow2 : Bool := true
   bm : Option Gen.BitMap.BitMap := none      -- model (generated functions); none = out-of-bounds reached
   hist : List Spec.BitMap.Op := []            -- spec state, newest first
+  conc : Bool := false                        -- concurrent case: calls are queued per thread and run by `go`
+  thr : List (Nat × List Spec.BitMap.Op) := []   -- per thread, oldest first
 
 def isPow2 (c : Nat) : Bool := c > 0 && (c &&& (c - 1)) == 0
+
+def addOp (thr : List (Nat × List Spec.BitMap.Op)) (t : Nat) (o : Spec.BitMap.Op) : List (Nat × List Spec.BitMap.Op) :=
+  if thr.any (·.1 == t) then thr.map (fun (t', l) => if t' == t then (t', l ++ [o]) else (t', l)) else thr ++ [(t, [o])]
+
+/-- the merged call order of a concurrent run, reconstructed from the order of the threads' read-modify-write events:
+the i-th event of thread `t` is its i-th call; `none` when a thread did not perform exactly one RMW of the expected kind
+per call (`set` = one `for`, `unset` = one `fand`) -/
+def merge (thr : List (Nat × List Spec.BitMap.Op)) (events : List (Nat × String)) : Option (List Spec.BitMap.Op) :=
+  let rec go (rest : List (Nat × List Spec.BitMap.Op)) (evs : List (Nat × String)) (acc : List Spec.BitMap.Op) :
+      Option (List Spec.BitMap.Op) :=
+    match evs with
+    | [] => if rest.all (·.2.isEmpty) then some acc.reverse else none
+    | (t, kind) :: more =>
+      match (rest.find? (·.1 == t)).map (·.2) with
+      | some (o :: os) =>
+        let want := match o with | .set _ => "for" | .unset _ => "fand"
+        if kind == want then go (rest.map (fun (t', l) => if t' == t then (t', os) else (t', l))) more (o :: acc) else none
+      | _ => none
+  go thr events []
+
+def parseEvents (s : String) : List (Nat × String) :=
+  if s == "-" then [] else (s.splitOn ",").filterMap fun e =>
+    match e.splitOn ":" with
+    | [t, k] => (((t.drop 1).toString).toNat?).map (fun n => (n, k))
+    | _ => none
+
+def parseFinal (s : String) : List (Nat × Bool) :=
+  if s == "-" then [] else (s.splitOn ",").filterMap fun e =>
+    match e.splitOn ":" with
+    | [q, v] => q.toNat?.map (fun n => (n, v == "1"))
+    | _ => none
+
+def field (ans : String) (k : String) : String :=
+  (((ans.splitOn " ").filterMap fun t => if t.startsWith (k ++ "=") then some (t.drop (k.length + 1)).toString else none).head?).getD ""
 
 def handler : Handler St where
   init := {}
   onCase args _ :=
-    let c := natArg args 1
-    ({ cap := c, pow2 := isPow2 c, bm := some (Gen.BitMap.build c), hist := [] }, [])
+    if args.head? == some "conc" then
+      let c := natArg args 2
+      ({ cap := c, pow2 := isPow2 c, bm := some (Gen.BitMap.build c), hist := [], conc := true, thr := [] }, [])
+    else
+      let c := natArg args 1
+      ({ cap := c, pow2 := isPow2 c, bm := some (Gen.BitMap.build c), hist := [] }, [])
   onOp s op args ans :=
     let x := natArg args 0
     match op with
     | "log2" => (s, judge ans (some (toString (Gen.BitMap.log2 x))) (some (toString (Nat.log2 x))))
+    | "t" =>
+      -- `t <thread> set|unset <seq>`: queued, run by `go`
+      let q := natArg args 2
+      let o : Spec.BitMap.Op := if args.getD 1 "" == "set" then .set q else .unset q
+      ({ s with thr := addOp s.thr x o }, judge ans (some "queued") none)
+    | "go" =>
+      let status := field ans "status"
+      let events := parseEvents (field ans "events")
+      let final := parseFinal (field ans "final")
+      if status != "ok" then (s, [s!"SPECFAIL concurrent run ended with status {status}"]) else
+      -- spec: the threads own disjoint residue classes, so every sequence answers as if its owner had run alone
+      let specMsgs := final.filterMap fun (q, v) =>
+        let owner := s.thr.find? (fun (_, l) => l.any (fun o => o.seq % s.cap == q % s.cap))
+        match owner with
+        | some (t, l) =>
+          let want := Spec.BitMap.isSet s.cap l.reverse q
+          if want == v then none else some s!"SPECFAIL concurrent calls on distinct residues: is_set({q})={boolStr v} but thread T{t} alone leaves {boolStr want}"
+        | none => none
+      -- model: each call is one atomic RMW; replay the merged order on the generated functions
+      let modelMsgs := match merge s.thr events with
+        | none => ["MISMATCH a call is not exactly one atomic read-modify-write of the expected kind (set = fetch_or, unset = fetch_and)"]
+        | some m =>
+          match Model.BitMap.run (Gen.BitMap.build s.cap) m with
+          | none => ["MISMATCH model reaches an out-of-bounds index"]
+          | some bm => final.filterMap fun (q, v) =>
+              match Gen.BitMap.is_set bm q with
+              | some b => if b == v then none else some s!"MISMATCH is_set({q}) impl={boolStr v} model={boolStr b} (merged order)"
+              | none => some "MISMATCH model is_set out of bounds"
+      (s, modelMsgs ++ (if s.pow2 then specMsgs else []))
     | "set" | "unset" =>
       let o : Spec.BitMap.Op := if op == "set" then .set x else .unset x
       let bm' := s.bm.bind (fun bm => Model.BitMap.apply bm o)
